@@ -119,9 +119,33 @@ type walker struct {
 	evs       []event
 	deferred  []event
 	depth     int
+	held      []string // mutexes held at this point of the walk (a deferred unlock holds to the end of the body)
+	blocking  []string // operations that can block indefinitely, met while a mutex is held
+	nonBlock  int      // > 0 inside the comm clauses of a select that has a default branch
 }
 
-func (w *walker) emit(k, a string) { w.evs = append(w.evs, event{k, a}) }
+func (w *walker) emit(k, a string) {
+	w.evs = append(w.evs, event{k, a})
+	switch k {
+	case "lock", "rlock":
+		w.held = append(w.held, a)
+	case "unlock", "runlock":
+		for i := len(w.held) - 1; i >= 0; i-- {
+			if w.held[i] == a {
+				w.held = append(w.held[:i], w.held[i+1:]...)
+				break
+			}
+		}
+	}
+}
+
+// blocks: an operation that waits for another goroutine (channel send / receive outside a select with default, WaitGroup.Wait,
+// time.Sleep) — recorded when it happens while a mutex is held: whoever needs that mutex then waits for a third party too
+func (w *walker) blocks(what string) {
+	if len(w.held) > 0 && w.nonBlock == 0 {
+		w.blocking = append(w.blocking, what+" while holding "+strings.Join(w.held, "+"))
+	}
+}
 
 func (w *walker) lockCall(call *ast.CallExpr) (event, bool) {
 	sel, ok := call.Fun.(*ast.SelectorExpr)
@@ -157,7 +181,19 @@ func (w *walker) reads(e ast.Node) {
 		switch x := n.(type) {
 		case *ast.FuncLit:
 			return false // closures (goroutines) are separate threads
+		case *ast.UnaryExpr:
+			if x.Op == token.ARROW {
+				w.blocks("receive from " + exprString(x.X))
+			}
 		case *ast.CallExpr:
+			if sel, ok := x.Fun.(*ast.SelectorExpr); ok {
+				if sel.Sel.Name == "Wait" && len(x.Args) == 0 {
+					w.blocks(exprString(sel.X) + ".Wait()")
+				}
+				if exprString(sel.X) == "time" && sel.Sel.Name == "Sleep" {
+					w.blocks("time.Sleep")
+				}
+			}
 			if ev, ok := w.lockCall(x); ok {
 				w.emit(ev.kind, ev.arg)
 				return false
@@ -279,13 +315,34 @@ func (w *walker) stmt(s ast.Stmt) {
 			w.stmt(b)
 		}
 	case *ast.SelectStmt:
-		w.block(x.Body)
+		hasDefault := false
+		for _, c := range x.Body.List {
+			if cc, ok := c.(*ast.CommClause); ok && cc.Comm == nil {
+				hasDefault = true
+			}
+		}
+		if !hasDefault {
+			w.blocks("select without default")
+		}
+		for _, c := range x.Body.List {
+			cc, ok := c.(*ast.CommClause)
+			if !ok {
+				continue
+			}
+			w.nonBlock++ // the communication itself is judged as part of the select (above)
+			w.stmt(cc.Comm)
+			w.nonBlock--
+			for _, b := range cc.Body {
+				w.stmt(b)
+			}
+		}
 	case *ast.CommClause:
 		w.stmt(x.Comm)
 		for _, b := range x.Body {
 			w.stmt(b)
 		}
 	case *ast.SendStmt:
+		w.blocks("send on " + exprString(x.Chan))
 		w.reads(x.Chan)
 		w.reads(x.Value)
 	case *ast.ReturnStmt:
@@ -337,6 +394,7 @@ func main() {
 		evs  []event
 	}
 	methods := []method{}
+	blockingUnderLock := [][2]string{}
 	for _, sp := range specs {
 		_, files := parseDir(filepath.Join(*repo, "internal", sp.pkgDir))
 		decls := map[string]*ast.FuncDecl{}
@@ -382,6 +440,9 @@ func main() {
 			w.block(d.Body)
 			w.evs = append(w.evs, w.deferred...)
 			methods = append(methods, method{sp.pkgDir + "." + sp.recvType + "." + n, w.evs})
+			for _, bl := range w.blocking {
+				blockingUnderLock = append(blockingUnderLock, [2]string{sp.pkgDir + "." + sp.recvType + "." + n, bl})
+			}
 		}
 	}
 	// crossbar: every function that touches hub membership or per-connection statistics
@@ -418,6 +479,15 @@ func main() {
 					}}
 				w.block(fd.Body)
 				w.evs = append(w.evs, w.deferred...)
+				{
+					name := fd.Name.Name
+					if _, t := recvName(fd); t != "" {
+						name = t + "." + name
+					}
+					for _, bl := range w.blocking {
+						blockingUnderLock = append(blockingUnderLock, [2]string{"crossbar." + name, bl})
+					}
+				}
 				touches := false
 				for _, e := range w.evs {
 					if e.kind == "rd" || e.kind == "wr" {
@@ -448,7 +518,9 @@ func main() {
 		}
 		b.WriteString("  (" + leanStr(m.name) + ", " + renderEvents(m.evs) + ")" + sep + "\n")
 	}
-	b.WriteString("]\n\nend Extracted\n")
+	b.WriteString("]\n\n/-- operations that wait for another goroutine (channel send / receive outside a select with default, Wait, Sleep) met while a mutex is held -/\n")
+	b.WriteString("def blockingUnderLock : List (String × String) := " + leanPairList(blockingUnderLock) + "\n")
+	b.WriteString("\nend Extracted\n")
 	writeIfChanged(filepath.Join(*outDir, "Locks.lean"), b.String())
 	extractRest()
 	if abs, err := filepath.Abs(*outDir); err == nil {
